@@ -235,11 +235,12 @@ PROPS = {
         "profiles": ["debug"],
         "rule": "every corpus type T of C01 against: messages of its own type, messages of 4 (thorough: 12) random other corpus types (the cross product supplies the layout-alikes: text vs blob, nat vs nat8, principal vs blob, vec nat8 vs vec int8), "
                 "byte-level mutants, messages of random sub/supertypes of T's Candid type with generated inhabitants, and hand-written layout-alike messages; native decoding at T is compared with the specification decoder at T's Candid type "
-                "and with the implementation's own untyped decoding (acceptance and value; element order ignored for maps and sets); messages outside the host limits (128-bit range, array length, duplicate keys) are counted, not compared; "
+                "and with the implementation's own untyped decoding (acceptance and value; element order ignored for maps and sets), and with the native decoder mirror of the model (nat.mirror: acceptance and value on every message, also outside the host limits and at other array lengths; nat.mirrorQ: at the smallest decoding / skipping quota under which the implementation decodes, found by bisection, and one below); messages outside the host limits (128-bit range, array length, duplicate keys) are counted, not compared; "
                 "successful native decodes are repeated under huge quotas; non-trivial = compared cases",
-        "trusted": ["as C01; serde's visitors for std types and the derive macro's visitors are exercised, not modelled", "BoundedVec is not in the corpus yet"],
+        "trusted": ["as C01; the Deserialize implementations of the corpus types (serde std / derive, serde_bytes, candid's own) are modelled in lean/CandidModel/Native.lean as which Deserializer method each calls with which visitor; the RTy descriptions of the corpus types are hand-written (harness/src/corpus.rs) and checked against T::ty() by `agree` on every mirror request",
+                    "the cost of skipping a reference value on the native path is not compared when the Rust type has named definitions (the shared skipping function charges the merged environment's size)"],
         "assumptions": ["host-limit predicates per corpus type are hand-written in harness/src/corpus.rs"],
-        "partial": ["native_eq_untyped is established by correspondence only; theorems: the blob/text/vector coercion facts the specialised paths must respect and the predicate of the known finding"],
+        "partial": ["native = untyped as ONE theorem is not proved (the native mirror and the untyped mirror consume their depth budgets differently); it is established per message by the correspondence (native vs specification, native vs untyped, native vs native mirror). Proved about the native mirror: bulk primitive reader sound and complete against the element-wise path, big-number and text-key shortcuts sound and taken only at their literal type pairs, bounded vectors accept exactly within limits, no visitor out of step with its expected type and no skip under a set flag (under agree, which the driver evaluates on every request)"],
     },
     "C11": {
         "profiles": ["debug"],
